@@ -58,8 +58,8 @@ def St.init (cells : List Nat) : St R :=
 
 /-- the writing block of `save_mesh`: `file_number_` takes its new value, one pair of files is written with the current cells -/
 def writeFiles (new : Int) (s : St R) : St R :=
-  let n := Gen.saveNext new s.fileNo
-  { s with fileNo := n, files := s.files ++ [{ iter := s.iter, number := n, cells := s.cells }] }
+  { s with fileNo := Gen.saveNext new s.fileNo,
+           files := s.files ++ [{ iter := s.iter, number := Gen.saveNext new s.fileNo, cells := s.cells }] }
 
 /-- the guarded block of `save_mesh`, executed while its guard holds (at most `fuel` times) -/
 def saveLoop : Nat → Int → St R → St R
@@ -78,20 +78,30 @@ def saveMesh (fn : Fn R) (P : Params R) (s : St R) : St R :=
 def record (s : St R) : St R :=
   { s with stats := s.stats ++ [{ iter := s.iter, time := s.time, cells := s.cells }] }
 
-/-- `solver::run_iteration` (statement order: `Gen.iterationOrder`) -/
+/-! the statements of `solver::run_iteration` (order: `Gen.iterationOrder`) -/
+
+/-- `if(!is_step_tmp()) save_mesh();` -/
+def phaseSave (fn : Fn R) (P : Params R) (s : St R) : St R := if Gen.stepTmp then s else saveMesh fn P s
+
+/-- `if(!is_step_tmp() && iteration_ % 5 == 0) cell_divider::run(cell_lst_, ...);` -/
+def phaseDivide (e : Event) (s : St R) : St R :=
+  if !Gen.stepTmp && s.iter % Gen.divisionPeriod == 0 then { s with cells := e.mid } else s
+
+/-- `update_nodes_positions`: `simulation_time_ += dt_` -/
+def phaseAdvance (P : Params R) (s : St R) : St R := { s with time := Gen.advance s.time P.dt }
+
+/-- `if(iteration_ % 50 == 0) write_data(iteration_, time, cell_lst_);` -/
+def phaseRecord (s : St R) : St R := if s.iter % Gen.statsPeriod == 0 then record s else s
+
+/-- `cell_lst_.erase(remove_if(is_below_min_vol))` -/
+def phaseRemove (e : Event) (s : St R) : St R := { s with cells := s.cells.filter (fun c => !e.dead.contains c) }
+
+/-- `iteration_++` -/
+def phaseCount (s : St R) : St R := { s with iter := s.iter + 1 }
+
+/-- `solver::run_iteration` -/
 def iteration (fn : Fn R) (P : Params R) (e : Event) (s : St R) : St R :=
-  -- if(!is_step_tmp()) save_mesh();
-  let s := if Gen.stepTmp then s else saveMesh fn P s
-  -- if(!is_step_tmp() && iteration_ % 5 == 0) cell_divider::run(cell_lst_, ...);
-  let s := if !Gen.stepTmp && s.iter % Gen.divisionPeriod == 0 then { s with cells := e.mid } else s
-  -- update_nodes_positions: simulation_time_ += dt_
-  let s := { s with time := Gen.advance s.time P.dt }
-  -- if(iteration_ % 50 == 0) write_data(iteration_, time, cell_lst_);
-  let s := if s.iter % Gen.statsPeriod == 0 then record s else s
-  -- cell_lst_.erase(remove_if(is_below_min_vol))
-  let s := { s with cells := s.cells.filter (fun c => !e.dead.contains c) }
-  -- iteration_++
-  { s with iter := s.iter + 1 }
+  phaseCount (phaseRemove e (phaseRecord (phaseAdvance P (phaseDivide e (phaseSave fn P s)))))
 
 /-- the main loop of `solver::run`, at most `fuel` iterations -/
 def loop (fn : Fn R) (P : Params R) (hist : Nat → Event) : Nat → St R → St R
